@@ -69,13 +69,22 @@ class AsyncHTTP11Connection(AsyncConnectionInterface):
                 f"to {self._origin}"
             )
 
-        async with self._state_lock:
-            if self._state in (HTTPConnectionState.NEW, HTTPConnectionState.IDLE):
-                self._request_count += 1
-                self._state = HTTPConnectionState.ACTIVE
-                self._expire_at = None
-            else:
-                raise ConnectionNotAvailable()
+        try:
+            async with self._state_lock:
+                if self._state in (HTTPConnectionState.NEW, HTTPConnectionState.IDLE):
+                    self._request_count += 1
+                    self._state = HTTPConnectionState.ACTIVE
+                    self._expire_at = None
+                else:
+                    raise ConnectionNotAvailable()
+        except BaseException:
+            if self._state == HTTPConnectionState.NEW:
+                # Cancelled before the first request got hold of the connection.
+                # A "NEW" connection is never handed to another request, so it
+                # would occupy its place in the pool for ever.
+                with AsyncShieldCancellation():
+                    await self.aclose()
+            raise
 
         try:
             kwargs = {"request": request}
